@@ -24,7 +24,7 @@ vars == <<w, v, stage>>
 \* per-width parameters: log2 cache line, log2 sizeof(uintptr_t), largest alignedMalloc exponent
 C == IF w < 12 THEN 2 ELSE 6
 P == IF w < 12 THEN 1 ELSE 3
-KMax == IF w < 12 THEN 5 ELSE IF w < 16 THEN 8 ELSE 12
+KMax == IF w < 8 THEN w - 2 ELSE IF w < 12 THEN 5 ELSE IF w < 16 THEN 8 ELSE 12   \* 2^KMax is an address of the width
 
 Half(W) == W \div 2
 Seeds(W) == IF W \in Narrow THEN SUBSET (0 .. (Half(W) - 1))
@@ -74,7 +74,7 @@ AlignDef_OK == (IsNarrow /\ AlignPre(v, C, w)) => Val(AlignB(v, C)) = AlignV(n, 
 AlignedMallocModel_OK ==
   IsNarrow =>
     \A k \in 0 .. KMax :
-      (v \cap LowMask(P) = {} /\ CarryOut(v, {EffK(k, P)}, 0, 0, w) = 0) =>
+      (v \cap LowMask(P) = {} /\ EffK(k, P) < w /\ CarryOut(v, {EffK(k, P)}, 0, 0, w) = 0) =>
         AlignedMallocOK(Val(AlignedMallocAlg(v, k, P, w)), n, k, P)
 
 \* the literal 64/32-bit tables of the source are the instances of the parametric table
